@@ -115,7 +115,7 @@ def run_group(harnesses, timeout_s, jobs, extra_args=None, playback=False, log_p
         cmd += ["-j", str(min(jobs, len(harnesses)))]
     if extra_args:
         cmd += extra_args
-    shell = f"ulimit -v {mem_kb}; exec " + " ".join(_q(c) for c in cmd)
+    shell = f"ulimit -s unlimited 2>/dev/null; ulimit -v {mem_kb}; exec " + " ".join(_q(c) for c in cmd)
     n_waves = (len(harnesses) + max(jobs, 1) - 1) // max(jobs, 1)
     outer = 600 + timeout_s * n_waves + 120
     t0 = time.time()
